@@ -146,18 +146,24 @@ func c10SharedOne(r *mon.Run, cs c10SharedCase) {
 	none := map[int]bool{}
 	// what fresh objects answer
 	ft, fr := c10SharedObjs(pt)
-	wantOK, p1 := c10SharedRoot(pt, ft, fr, none, false)
+	wantOK, p1 := c10SharedRoot(pt, ft, fr, none, cs.Dup)
 	ft, fr = c10SharedObjs(pt)
-	wantFail, p2 := c10SharedRoot(pt, ft, fr, drop, false)
+	wantFail, p2 := c10SharedRoot(pt, ft, fr, drop, cs.Dup)
 	if p1 != nil || p2 != nil {
 		r.Count("shared_types:fresh_objects_panic_(C02's_subject)", 1)
 		return
 	}
+	for _, w := range []string{wantOK, wantFail} {
+		// a name whose registration succeeded is taken: only where a first registration failed may a second one pass
+		if strings.Contains(w, "a second AddType") && !strings.HasPrefix(w, "AddType ") && !strings.Contains(w, "\nAddType ") {
+			r.Violate("history-dependent", "shared types: second registration ; "+mon.Trunc(projectKey(pt), 300), "on fresh objects, with every first AddType accepted, a second AddType under a taken name is accepted: "+mon.Trunc(w, 200), cs)
+			return
+		}
+	}
 	if !strings.Contains(wantOK, "Check: <nil>") {
-		// a project that is refused even when complete: a refused allOf merge stops half-way inside the shared type
-		// object, and the next refusal may name another member (recorded in DESIGN.md, still a refusal every time)
-		r.Count("shared_types:complete_project_refused_not_used", 1)
-		return
+		// a project that is refused even when complete: every root over the shared objects has to give that same
+		// refusal (a refused allOf merge must not leave a shared type object extended half-way)
+		r.Count("shared_types:complete_project_refused_(used_as_well)", 1)
 	}
 	if !strings.Contains(wantFail, "Check: error") {
 		// withholding these types does not make the root fail: the shared objects would be compiled in place by it
